@@ -815,6 +815,9 @@ def history_section(ctx, n=None):
         for i in range(n):
             cfg = F.random_cfg(r, page_sizes=[512, 1024, 4096], small=True)
             cfg["encoding"] = F.ENCODINGS[i % 3]
+            if i % 6 == 0:
+                # schema + encoding established inside the WAL: cycle the encodings, UTF-16be first
+                cfg["encoding"] = ["UTF-16be", "UTF-16le", "UTF-8"][(i // 6) % 3]
             if i % 2 == 0:
                 try:
                     # (k % 4 == 3 drops the first d-table; the shared generator forgets it: at most 7 commits)
